@@ -19,6 +19,7 @@ def _scenario(job):
     rng = random.Random(seed)
     rs, cfg, casegen = rtcheck.FAMILIES[fam](rng)
     cfg.stdio = True
+    cfg.yylmax = None      # known finding F28 makes "token too large" depend on where reads end (EINTR moves them)
     cfg.ledger = True
     cfg.sanitize = True
     name = 'c14_%d' % idx
